@@ -538,7 +538,7 @@ pub fn gen(rng: &mut Rng, n: usize, tier: &str) -> Vec<Req> {
         for p in ["a*b", "a?b", "**", "*?", "??", "?*", "a**", "*a*", " a ", "_?"] {
             batch_lines(&mut out, p, "exh");
         }
-        for _ in 0..24 {
+        for _ in 0..16 {
             let p = rng.pick(&pats).clone();
             batch_lines(&mut out, &p, "exh");
         }
